@@ -8,6 +8,7 @@ import logging
 import multiprocessing
 import os
 import re
+import signal
 import sys
 import time
 import traceback
@@ -83,13 +84,40 @@ def run_concrete(mod, params, values, choices):
         mod.harness(h)
     except Infeasible:
         h.infeasible = True
+    except PathAbort as e:
+        # an unwinding bound hit by the real code during a replay: not a reproduction of anything
+        h.replay_abort = e.reason
     finally:
         logging.disable(saved_disable)
     return h
 
 
+def _alarm(signum, frame):
+    raise PathAbort("hard watchdog: the path (or its replay) did not finish in time", kind='watchdog')
+
+
 def run_path(mod, params, prefix, opts):
     """Execute one path symbolically.  Returns a summary dict (picklable)."""
+    try:
+        signal.signal(signal.SIGALRM, _alarm)
+        signal.alarm(int(opts.get('path_wall_s', 60) * 3 + 30))
+    except ValueError:
+        pass
+    try:
+        return _run_path(mod, params, prefix, opts)
+    except PathAbort as e:
+        # raised by the hard watchdog outside the guarded region (e.g. during a replay of a looping real run)
+        return {'status': 'abort:' + e.kind, 'reason': e.reason, 'ndec': 0, 'pending': [], 'checks': [], 'notes': {}, 'nchecks': 0,
+                'nunknown': 0, 'solver_s': 0.0, 'inconclusive': [], 'wall_s': 0.0, 'stubs': [], 'confirmed': [], 'unconfirmed': [],
+                'sample': None, 'concolic': None}
+    finally:
+        try:
+            signal.alarm(0)
+        except ValueError:
+            pass
+
+
+def _run_path(mod, params, prefix, opts):
     c = Ctx(prefix, timeout_ms=opts['timeout_ms'], max_decisions=opts.get('max_decisions', 4000))
     c.deadline = time.time() + opts.get('path_wall_s', 60)
     core.set_ctx(c)
